@@ -94,6 +94,19 @@ CLAIMED = {
         "operation sequences and real-thread schedules are not decided.",
         design_ref="DESIGN.md §4 C09",
     ),
+    "C10": dict(
+        technique=TECH + "checked-call dominance of the response sanity check, guard table of check_response, "
+        "wire-derived panic audit, arm-identity dominance of commit in the updater, shared rollback-coverage rules",
+        text="Decides narrow structural necessary conditions of C10: XfrResponseInterpreter interprets or stores a "
+        "response only after check_response succeeded; check_response returns Ok only behind not-error, QR, "
+        "opcode QUERY, not TC, ANCOUNT>0, NSCOUNT==0 and the QDCOUNT rule; a first response without an AXFR/IXFR "
+        "question is an error, not a panic; no explicit panic or unwrap of a parse result under response-derived "
+        "branches in net::xfr::protocol; ZoneUpdater::apply commits only in the BeginBatchDelete and Finished arms "
+        "(after the SOA update), rejects updates once finished, and nobody else commits the writer; abandoned work "
+        "is rolled back (rollback/remove_all field coverage, Drop of a dirty writer, Versioned guard table - rules "
+        "shared with C09). Fidelity of reconstruction, diff algebra and batching are not decided.",
+        design_ref="DESIGN.md §4 C10",
+    ),
     "C11": dict(
         technique=TECH + "guard-table dominance on all four verification paths, dataflow provenance of the "
         "digested octets, array-width extraction of digest inputs, error-variant to RCODE coverage",
